@@ -98,3 +98,32 @@ Print Assumptions C11_contacts_two_residues.
 Theorem C11_contacts_one_class : forall rs l, NoDup (map (fun t => (fst (fst t), snd (fst t))) (merge_and_clean rs l)).
 Proof. exact contacts_one_class. Qed.
 Print Assumptions C11_contacts_one_class.
+
+(* every reported base-phosphate / base-ribose contact is backed by scanned atom contacts of that residue pair: a donor
+   candidate and an acceptor candidate on two different residues, from the neighbour pairs handed to the scan, one of the two
+   atoms named like a phosphate (resp. ribose) oxygen, with the class the ladder gives for the donor atom - or it is class 4
+   backed by contacts of classes 3 and 5, or class 8 backed by 7 and 9 *)
+From RV Require Import Proofs.C11Contacts.
+Theorem C11_contacts_backed : forall rs order d a k,
+    (In (d, a, k) (po_bph (find_pairs rs order)) ->
+       let B x := backed rs (candidates rs) order phosphate_acceptors (d, a, x) in B k \/ (k = 4 /\ B 3 /\ B 5) \/ (k = 8 /\ B 7 /\ B 9)) /\
+    (In (d, a, k) (po_br (find_pairs rs order)) ->
+       let B x := backed rs (candidates rs) order ribose_acceptors (d, a, x) in B k \/ (k = 4 /\ B 3 /\ B 5) \/ (k = 8 /\ B 7 /\ B 9)).
+Proof. exact reported_contacts_backed. Qed.
+Print Assumptions C11_contacts_backed.
+
+(* and when the scan is fed the validated neighbour set, the donor and the acceptor atom are within the 4.0 A threshold *)
+Theorem C11_contacts_within : forall rs order names t, (forall ij, In ij order -> In ij (hbond_neighbours rs)) ->
+    backed rs (candidates rs) order names t ->
+    exists donor acceptor, In donor (candidates rs) /\ In acceptor (candidates rs) /\
+      c_acceptor donor = false /\ c_acceptor acceptor = true /\ fst t = (c_res donor, c_res acceptor) /\
+      within2 hbond_max_distance (c_pos donor) (c_pos acceptor) = true.
+Proof. exact backed_within. Qed.
+Print Assumptions C11_contacts_within.
+
+(* base pairs are sorted in the strong sense when no two residues share an identity (see C04_residue_order) *)
+From RV Require Import Proofs.ResOrder Proofs.SortedStrong.
+Theorem C11_pairs_strongly_sorted : forall rs, NoDup (map res_key rs) -> forall order, 2 <= length (candidates rs) ->
+    exists ls, po_pairs (find_pairs rs order) = map (pair_of rs) ls /\ StronglySorted (fun x y => pair_ltb rs y x = false) ls.
+Proof. exact pairs_strongly_sorted. Qed.
+Print Assumptions C11_pairs_strongly_sorted.
